@@ -457,8 +457,46 @@ class World:
                 wf_second = c.second.columns_required <= after_first and not (
                     isinstance(c.second, Calculation) and c.second.tag in after_first)
                 same = "T" if c.first is pj or c.first == pj else "F"
+                sem = ""
+                if wf_first and wf_second and isinstance(t.engine, iteration.Engine) and c.done:
+                    # the PROPERTY on the implementation: evaluate "existing operation, then the join" and "the join,
+                    # then the reported second operation" with a nested-loop reference join (rows of the right operand
+                    # win a name clash, as in `{**lhs, **rhs}`), for the fixed relation on either side
+                    try:
+                        predfn = t.engine.convert_predicate(self.pred(px))
+                        frows = [dict(r) for r in t.engine.execute(fixed)]
+
+                        def pyjoin(lrows, rrows):
+                            out = []
+                            for lr in lrows:
+                                for rr in rrows:
+                                    if all(lr[k] == rr[k] for k in common):
+                                        m = {**lr, **rr}
+                                        if predfn(m):
+                                            out.append(m)
+                            return out
+
+                        def through(op, rows, cols):
+                            leaf = LeafRelation(t.engine, frozenset(cols), iteration.RowSequence(rows), name="J",
+                                                min_rows=0, max_rows=None)
+                            if isinstance(op, Identity):
+                                return rows
+                            rel = UnaryOperationRelation(operation=op, target=leaf, columns=op.applied_columns(leaf))
+                            return [dict(r) for r in t.engine.execute(rel)]
+
+                        trows = [dict(r) for r in t.engine.execute(t)]
+                        crows = [dict(r) for r in t.engine.execute(current)]
+                        ra = proto.show_rows(sorted(pyjoin(crows, frows), key=proto.show_row))
+                        rb = proto.show_rows(sorted(through(c.second, pyjoin(trows, frows), after_first),
+                                                    key=proto.show_row))
+                        la = proto.show_rows(sorted(pyjoin(frows, crows), key=proto.show_row))
+                        lb = proto.show_rows(sorted(through(c.second, pyjoin(frows, trows), after_first),
+                                                    key=proto.show_row))
+                        sem = f" ja={ra} jb={rb} la={la} lb={lb}"
+                    except Exception as exc:  # noqa: BLE001 - reported, judged by the oracle
+                        sem = f" ja=[!{type(exc).__name__}] jb=[] la=[] lb=[]"
                 return (f"ok first=join:{same} second={proto.show_uop(c.second)} done={show_bool(c.done)} "
-                        f"cur={proto.show_uop(cur)} wf={show_bool(wf_first and wf_second)}")
+                        f"cur={proto.show_uop(cur)} wf={show_bool(wf_first and wf_second)}{sem}")
             case ["commutesem", nx, cx, tn]:
                 t = self.pool[tn]
                 new, cur = self.uop(nx), self.uop(cx)
